@@ -183,6 +183,31 @@ def sx_host_attr(name, attr):
     return getattr(sx_host(name), attr)
 
 
+def sx_isinstance(obj, classinfo):
+    """isinstance() in the code under test: a proxy is an instance of what it stands for"""
+    r = isinstance(obj, classinfo)
+    if r:
+        return r
+    from .values import SymInt, SymBool, SymBytes, AtomStr
+    from .symstr import SymStr
+    stands_for = None
+    if isinstance(obj, SymBool):
+        stands_for = bool
+    elif isinstance(obj, SymInt):
+        stands_for = int
+    elif isinstance(obj, SymBytes):
+        stands_for = bytes
+    elif isinstance(obj, (AtomStr, SymStr)):
+        stands_for = str
+    if stands_for is None:
+        return r
+    try:
+        return issubclass(stands_for, classinfo)
+    except TypeError:
+        return r
+
+
+builtins.__sx_isinstance__ = sx_isinstance
 builtins.__sx_genexp__ = sx_genexp
 builtins.__sx_bool__ = sx_bool
 builtins.__sx_host__ = sx_host
@@ -304,6 +329,11 @@ class Rewriter(ast.NodeTransformer):
                 and not isinstance(node.args[0], ast.Starred):
             self.counts['bool'] = self.counts.get('bool', 0) + 1
             new = ast.Call(func=ast.Name(id='__sx_bool__', ctx=ast.Load()), args=node.args, keywords=[])
+            return ast.copy_location(new, node)
+        if isinstance(f, ast.Name) and f.id == 'isinstance' and len(node.args) == 2 and not node.keywords \
+                and not any(isinstance(a, ast.Starred) for a in node.args):
+            self.counts['isinstance'] = self.counts.get('isinstance', 0) + 1
+            new = ast.Call(func=ast.Name(id='__sx_isinstance__', ctx=ast.Load()), args=node.args, keywords=[])
             return ast.copy_location(new, node)
         if isinstance(f, ast.Name) and f.id in ('frozenset', 'set') and len(node.args) == 1 and not node.keywords \
                 and not isinstance(node.args[0], ast.Starred):
